@@ -110,6 +110,14 @@ func specC10(tier string, variant int) *SeqSpec {
 			// the key disappears through a flush and is re-created with the same content
 			probe(cs(1, "FLUSHALL"), cs(1, "SET", "ws", "5")), probe(cs(1, "FLUSHDB"), cs(1, "RPUSH", "wl", "e", "e2")), probe(cs(0, "FLUSHALL"), cs(0, "SET", "ws", "5")),
 			probe(cs(1, "FLUSHDB"), cs(1, "HSET", "wh", "f", "1", "g", "x")), probe(cs(1, "FLUSHALL"), cs(1, "SADD", "wz", "m", "n2")))
+		// a watched STRING that is changed and changed back is still a changed key (strings are replaced by
+		// every write; the open finding about in-place changes concerns lists, hashes, sets and missing keys)
+		for _, who := range []int{1, 0} {
+			for _, pair := range [][2][]string{{{"INCR", "ws"}, {"DECR", "ws"}}, {{"INCRBY", "ws", "5"}, {"DECRBY", "ws", "5"}}, {{"DECR", "ws"}, {"INCR", "ws"}}, {{"SETBIT", "ws", "7", "1"}, {"SETBIT", "ws", "7", "0"}},
+				{{"SETRANGE", "ws", "0", "9"}, {"SETRANGE", "ws", "0", "5"}}, {{"INCRBYFLOAT", "ws", "1.5"}, {"INCRBYFLOAT", "ws", "-1.5"}}, {{"APPEND", "ws", ""}, {"GET", "ws"}}, {{"INCRBY", "ws", "0"}, {"GET", "ws"}}, {{"GETSET", "ws", "5"}, {"GET", "ws"}}, {{"SET", "ws", "5", "KEEPTTL"}, {"GET", "ws"}}} {
+				s.Sweep = append(s.Sweep, probe(Op{Sess: who, Args: pair[0]}, Op{Sess: who, Args: pair[1]}))
+			}
+		}
 		// commands of the watching connection that are refused, or have nothing to do with transactions,
 		// leave the watches alone - whether a watched key has been modified or not
 		for _, keep := range [][]Op{
